@@ -89,6 +89,9 @@ let handle toks =
         | "evs" -> (* emit calls since the last reset: ref:len,... *)
             let l = List.rev_map (fun e -> Printf.sprintf "%d:%d" (iz e.ev_ref) (List.length e.ev_bytes)) !evs in
             Buffer.add_string out ((if l = [] then "-" else String.concat "," l) ^ " ")
+        | "evb" -> (* emit calls since the last reset: ref:nest:hex,... *)
+            let l = List.rev_map (fun e -> Printf.sprintf "%d:%d:%s" (iz e.ev_ref) (iz e.ev_nest) (hex_of_zs e.ev_bytes)) !evs in
+            Buffer.add_string out ((if l = [] then "-" else String.concat "," l) ^ " ")
         | "nvt" -> (* number of vtable events since reset, and number of distinct (nest, bytes) among them *)
             let vts = List.filter (fun e -> iz e.ev_kind = 1) !evs in
             let keys = List.sort_uniq compare (List.map (fun e -> (iz e.ev_nest, List.map iz e.ev_tag)) vts) in
